@@ -57,25 +57,26 @@ def WrPhase.holds : WrPhase → Bool
   | _ => false
 
 def WkPhase.holds : WkPhase → Bool
-  | .rotLocked | .flushLocked => true
+  | .rotLocked _ | .flushLocked => true
   | _ => false
 
-/-- remaining work of a writer, in steps (a write = lock, apply, leave the stall check; plus the
-    rotation request it may queue, which costs 8 worker steps) -/
-def wrank (w : Writer) : Nat :=
+/-- remaining work of a writer, in steps: a write = lock, apply, leave the stall check, plus
+    the rotation request it may queue (`8 + K` worker steps, `K = 2 · fanout` for the compactions) -/
+def wrank (K : Nat) (w : Writer) : Nat :=
   match w.phase with
-  | .idle => 11 * w.todo.length
-  | .locked => 11 * w.todo.tail.length + 10
-  | .stalling => 11 * w.todo.tail.length + 1
-  | .stallingLocked => 11 * w.todo.tail.length + 1
+  | .idle => (11 + K) * w.todo.length
+  | .locked => (11 + K) * w.todo.tail.length + (10 + K)
+  | .stalling => (11 + K) * w.todo.tail.length + 1
+  | .stallingLocked => (11 + K) * w.todo.tail.length + 1
 
-def krank : WkPhase → Nat
-  | .idle => 0 | .rotWait => 7 | .rotLocked => 6 | .sendFlush => 5
-  | .flushWait => 3 | .flushLocked => 2 | .flushing => 1
+def krank (K : Nat) : WkPhase → Nat
+  | .idle => 0 | .rotWait _ => 7 + K | .rotLocked _ => 6 + K | .sendFlush => 5 + K
+  | .flushWait => 3 + K | .flushLocked => 2 + K | .flushing => 1 + K | .compacting => 1
 
 /-- work left in the whole system: every effective step lowers it -/
-def rank (s : State) : Nat :=
-  (s.writers.map wrank).sum + (s.workers.map krank).sum + 8 * s.rot + 4 * s.fl
+def rank (cfg : Cfg) (s : State) : Nat :=
+  (s.writers.map (wrank (2 * cfg.fanout))).sum + (s.workers.map (krank (2 * cfg.fanout))).sum +
+    (8 + 2 * cfg.fanout) * s.rotq.length + (4 + 2 * cfg.fanout) * s.fl + 2 * s.cp
 
 /-- the code as it is (after fix F24): workers never wait for room, writers unlock before the stall check -/
 def Cfg.Live (cfg : Cfg) : Prop :=
@@ -99,7 +100,7 @@ structure Inv (s : State) : Prop where
   wOk : ∀ (i : Nat) (w : Writer), s.writers[i]? = some w → WOk s.jlock i w
   kOk : ∀ (j : Nat) (p : WkPhase), s.workers[j]? = some p → KOk s.jlock j p
   held : ∀ y, s.jlock = some y → Holds s y
-  sealedEq : s.sealed = s.tasks + s.workers.countP WkPhase.flushy
+  sealedLe : s.sealed ≤ s.tasks + s.workers.countP WkPhase.flushy
   tasksLe : s.tasks ≤ s.fl
 
 theorem init_inv (progs : List (List Bool)) (n : Nat) : Inv (init progs n) := by
@@ -137,7 +138,7 @@ theorem upd_writer (s s' : State) (i : Nat) (w w' : Writer) (h : Inv s) (hw : s.
     (hothers : ∀ y, y ≠ Holder.w i → (s.jlock = some y ↔ s'.jlock = some y))
     (hself : s'.jlock = some (.w i) → w'.phase.holds = true) : Inv s' := by
   have hlen := lt_of_getElem? hw
-  refine ⟨?_, ?_, ?_, by rw [hse, hta, hwk]; exact h.sealedEq, by rw [hta, hfl]; exact h.tasksLe⟩
+  refine ⟨?_, ?_, ?_, by rw [hse, hta, hwk]; exact h.sealedLe, by rw [hta, hfl]; exact h.tasksLe⟩
   · intro i' w'' hw''
     rw [hws, getElem?_set_eq'] at hw''
     by_cases e : i = i'
@@ -166,7 +167,7 @@ theorem upd_writer (s s' : State) (i : Nat) (w w' : Writer) (h : Inv s) (hw : s.
 /-- a step of worker `j` -/
 theorem upd_worker (s s' : State) (j : Nat) (p p' : WkPhase) (h : Inv s) (hp : s.workers[j]? = some p)
     (hws : s'.writers = s.writers) (hwk : s'.workers = s.workers.set j p')
-    (hse : s'.sealed + (if p.flushy then 1 else 0) + s.tasks = s.sealed + (if p'.flushy then 1 else 0) + s'.tasks)
+    (hse : s'.sealed + (if p.flushy then 1 else 0) + s.tasks ≤ s.sealed + (if p'.flushy then 1 else 0) + s'.tasks ∨ s'.sealed = 0)
     (hta : s'.tasks ≤ s'.fl)
     (hok : KOk s'.jlock j p')
     (hothers : ∀ y, y ≠ Holder.k j → (s.jlock = some y ↔ s'.jlock = some y))
@@ -198,16 +199,48 @@ theorem upd_worker (s s' : State) (j : Nat) (p p' : WkPhase) (h : Inv s) (hp : s
         have ne : j ≠ j' := fun x => e (by rw [x])
         exact ⟨p'', by rw [hwk, getElem?_set_eq']; simp [ne, h1], h2⟩
   · have hc := countP_set WkPhase.flushy s.workers j p' p hp
-    have := h.sealedEq
+    have := h.sealedLe
     rw [hwk]
-    omega
+    rcases hse with hse | hse <;> omega
 
 end Fjall.Stall
 
 namespace Fjall.Stall
 
-theorem holder_ne_w_of_none {jl : Option Holder} (h : jl = none) (y : Holder) : ¬ jl = some y := by
-  rw [h]; simp
+/-! ### `sendCompacts` only touches the `Compact` counter -/
+
+theorem sendCompacts_fields (cfg : Cfg) (n : Nat) (s : State) :
+    (s.sendCompacts cfg n).jlock = s.jlock ∧ (s.sendCompacts cfg n).sealed = s.sealed ∧
+    (s.sendCompacts cfg n).tasks = s.tasks ∧ (s.sendCompacts cfg n).rotq = s.rotq ∧
+    (s.sendCompacts cfg n).fl = s.fl ∧ (s.sendCompacts cfg n).gen = s.gen ∧
+    (s.sendCompacts cfg n).over = s.over ∧ (s.sendCompacts cfg n).writers = s.writers ∧
+    (s.sendCompacts cfg n).workers = s.workers ∧
+    s.cp ≤ (s.sendCompacts cfg n).cp ∧ (s.sendCompacts cfg n).cp ≤ s.cp + n := by
+  induction n generalizing s with
+  | zero => simp [State.sendCompacts]
+  | succ n ih =>
+    simp only [State.sendCompacts]
+    split
+    · have := ih { s with cp := s.cp + 1 }
+      simp only at this
+      obtain ⟨h1, h2, h3, h4, h5, h6, h7, h8, h9, h10, h11⟩ := this
+      exact ⟨h1, h2, h3, h4, h5, h6, h7, h8, h9, by omega, by omega⟩
+    · obtain ⟨h1, h2, h3, h4, h5, h6, h7, h8, h9, h10, h11⟩ := ih s
+      exact ⟨h1, h2, h3, h4, h5, h6, h7, h8, h9, h10, by omega⟩
+
+theorem inv_sendCompacts (cfg : Cfg) (n : Nat) (s : State) (h : Inv s) : Inv (s.sendCompacts cfg n) := by
+  obtain ⟨h1, h2, h3, h4, h5, _, _, h8, h9, _, _⟩ := sendCompacts_fields cfg n s
+  refine ⟨?_, ?_, ?_, ?_, ?_⟩
+  · intro i w hw; rw [h8] at hw; rw [h1]; exact h.wOk i w hw
+  · intro j p hp; rw [h9] at hp; rw [h1]; exact h.kOk j p hp
+  · intro y hy
+    rw [h1] at hy
+    have := h.held y hy
+    cases y with
+    | w i => obtain ⟨w, a, b⟩ := this; exact ⟨w, by rw [h8]; exact a, b⟩
+    | k j => obtain ⟨p, a, b⟩ := this; exact ⟨p, by rw [h9]; exact a, b⟩
+  · rw [h2, h3, h9]; exact h.sealedLe
+  · rw [h3, h5]; exact h.tasksLe
 
 theorem step_inv (cfg : Cfg) (hc : cfg.Live) (s : State) (tid : Tid) (h : Inv s) :
     Inv (stepT cfg s tid) := by
@@ -262,7 +295,7 @@ theorem step_inv (cfg : Cfg) (hc : cfg.Live) (s : State) (tid : Tid) (h : Inv s)
           rw [hph] at h2; simp [WrPhase.holds] at h2
       · rename_i hph
         exact absurd hph hWo.noSL
-  | worker j pickRot =>
+  | worker j pick =>
     simp only [stepT]
     cases hp : s.workers[j]? with
     | none => exact h
@@ -274,65 +307,80 @@ theorem step_inv (cfg : Cfg) (hc : cfg.Live) (s : State) (tid : Tid) (h : Inv s)
         obtain ⟨p2, h1, h2⟩ := h.held _ hl
         rw [hp] at h1; cases h1
         rw [e, hq] at h2; cases h2
+      have releaseOthers : s.jlock = some (.k j) →
+          ∀ y, y ≠ Holder.k j → (s.jlock = some y ↔ (none : Option Holder) = some y) := by
+        intro hlk y hy
+        simp only [hlk, Option.some.injEq]
+        constructor
+        · intro e; exact absurd e.symm hy
+        · intro e; cases e
+      have acquireOthers : s.jlock = none →
+          ∀ y, y ≠ Holder.k j → (s.jlock = some y ↔ some (Holder.k j) = some y) := by
+        intro hln y hy
+        simp only [hln]
+        constructor
+        · intro e; cases e
+        · intro e; simp only [Option.some.injEq] at e; exact absurd e.symm hy
       unfold stepWorker
       cases p with
       | idle =>
         simp only
-        by_cases hr : pickRot = true
-        · simp only [hr, if_true]
-          by_cases h0 : s.rot > 0
-          · simp only [h0, if_true]
-            refine upd_worker s _ j .idle _ h hp rfl rfl (by simp [WkPhase.flushy]) h.tasksLe
+        cases pick with
+        | rot =>
+          simp only
+          cases hq : s.rotq with
+          | nil => exact h
+          | cons g r =>
+            simp only
+            refine upd_worker s _ j .idle _ h hp rfl rfl (Or.inl (by simp [WkPhase.flushy])) h.tasksLe
               ⟨fun hh => by simp [WkPhase.holds] at hh, by simp⟩ (fun y _ => Iff.rfl) ?_
             intro e; exact absurd e (notHeld .idle rfl rfl)
-          · simp only [h0, if_false]; exact h
-        · simp only [hr, Bool.false_eq_true, if_false]
+        | flush =>
+          simp only
           by_cases h0 : s.fl > 0
           · simp only [h0, if_true]
             by_cases ht : s.tasks > 0
             · simp only [ht, if_true]
               have := h.tasksLe
-              refine upd_worker s _ j .idle _ h hp rfl rfl (by simp [WkPhase.flushy]; omega) (by simp; omega)
+              refine upd_worker s _ j .idle _ h hp rfl rfl (Or.inl (by simp [WkPhase.flushy] <;> omega)) (by simp; omega)
                 ⟨fun hh => by simp [WkPhase.holds] at hh, by simp⟩ (fun y _ => Iff.rfl) ?_
               intro e; exact absurd e (notHeld .idle rfl rfl)
             · simp only [ht, if_false]
               have := h.tasksLe
-              exact ⟨h.wOk, h.kOk, h.held, h.sealedEq, by simp; omega⟩
+              exact ⟨h.wOk, h.kOk, h.held, h.sealedLe, by simp; omega⟩
           · simp only [h0, if_false]; exact h
-      | rotWait =>
+        | compact =>
+          simp only
+          by_cases h0 : s.cp > 0
+          · simp only [h0, if_true]
+            refine upd_worker s _ j .idle _ h hp rfl rfl (Or.inl (by simp [WkPhase.flushy])) h.tasksLe
+              ⟨fun hh => by simp [WkPhase.holds] at hh, by simp⟩ (fun y _ => Iff.rfl) ?_
+            intro e; exact absurd e (notHeld .idle rfl rfl)
+          · simp only [h0, if_false]; exact h
+      | rotWait g =>
         simp only
         by_cases hl : s.jlock.isNone = true
         · simp only [hl, if_true]
           have hln : s.jlock = none := by simpa using hl
-          refine upd_worker s _ j .rotWait _ h hp rfl rfl (by simp [WkPhase.flushy]) h.tasksLe
-            ⟨fun _ => rfl, by simp⟩ ?_ (fun _ => by simp [WkPhase.holds])
-          intro y hy
-          simp only [hln]
-          constructor
-          · intro e; cases e
-          · intro e; simp only [Option.some.injEq] at e; exact absurd e.symm hy
+          exact upd_worker s _ j (.rotWait g) _ h hp rfl rfl (Or.inl (by simp [WkPhase.flushy])) h.tasksLe
+            ⟨fun _ => rfl, by simp⟩ (acquireOthers hln) (fun _ => by simp [WkPhase.holds])
         · simp only [hl, Bool.false_eq_true, if_false]; exact h
-      | rotLocked =>
+      | rotLocked g =>
         simp only
         have hlk : s.jlock = some (.k j) := hKo.lock rfl
-        have hoth : ∀ y, y ≠ Holder.k j → (s.jlock = some y ↔ (none : Option Holder) = some y) := by
-          intro y hy
-          simp only [hlk, Option.some.injEq]
-          constructor
-          · intro e; exact absurd e.symm hy
-          · intro e; cases e
-        by_cases ho : s.over = true
+        have hoth := releaseOthers hlk
+        by_cases ho : g = s.gen
         · simp only [ho, if_true, hbs, Bool.false_eq_true, if_false]
           have := h.tasksLe
-          by_cases hroom : State.room cfg { s with jlock := none, over := false, sealed := s.sealed + 1, tasks := s.tasks + 1 } = true
+          by_cases hroom : State.room cfg { s with jlock := none, over := false, gen := s.gen + 1, sealed := s.sealed + 1, tasks := s.tasks + 1 } = true
           · simp only [hroom, if_true]
-            refine upd_worker s _ j .rotLocked _ h hp rfl rfl (by simp [WkPhase.flushy]; omega) (by simp; omega)
+            refine upd_worker s _ j (.rotLocked s.gen) _ h (by rw [← ho]; exact hp) rfl rfl (Or.inl (by simp [WkPhase.flushy] <;> omega)) (by simp; omega)
               ⟨fun hh => by simp [WkPhase.holds] at hh, by simp⟩ hoth (fun e => by simp at e)
           · simp only [hroom, Bool.false_eq_true, if_false]
-            refine upd_worker s _ j .rotLocked _ h hp rfl rfl (by simp [WkPhase.flushy]) (by simp; omega)
+            refine upd_worker s _ j (.rotLocked s.gen) _ h (by rw [← ho]; exact hp) rfl rfl (Or.inl (by simp [WkPhase.flushy] <;> omega)) (by simp; omega)
               ⟨fun hh => by simp [WkPhase.holds] at hh, by simp⟩ hoth (fun e => by simp at e)
-        · simp only [ho, Bool.false_eq_true, if_false]
-          refine upd_worker s _ j .rotLocked _ h hp rfl rfl (by simp [WkPhase.flushy]) h.tasksLe
+        · simp only [ho, if_false]
+          exact upd_worker s _ j (.rotLocked g) _ h hp rfl rfl (Or.inl (by simp [WkPhase.flushy])) h.tasksLe
             ⟨fun hh => by simp [WkPhase.holds] at hh, by simp⟩ hoth (fun e => by simp at e)
       | sendFlush => exact absurd rfl hKo.noSend
       | flushWait =>
@@ -340,33 +388,25 @@ theorem step_inv (cfg : Cfg) (hc : cfg.Live) (s : State) (tid : Tid) (h : Inv s)
         by_cases hl : s.jlock.isNone = true
         · simp only [hl, if_true]
           have hln : s.jlock = none := by simpa using hl
-          refine upd_worker s _ j .flushWait _ h hp rfl rfl (by simp [WkPhase.flushy]) h.tasksLe
-            ⟨fun _ => rfl, by simp⟩ ?_ (fun _ => by simp [WkPhase.holds])
-          intro y hy
-          simp only [hln]
-          constructor
-          · intro e; cases e
-          · intro e; simp only [Option.some.injEq] at e; exact absurd e.symm hy
+          exact upd_worker s _ j .flushWait _ h hp rfl rfl (Or.inl (by simp [WkPhase.flushy])) h.tasksLe
+            ⟨fun _ => rfl, by simp⟩ (acquireOthers hln) (fun _ => by simp [WkPhase.holds])
         · simp only [hl, Bool.false_eq_true, if_false]; exact h
       | flushLocked =>
         simp only
         have hlk : s.jlock = some (.k j) := hKo.lock rfl
-        refine upd_worker s _ j .flushLocked _ h hp rfl rfl (by simp [WkPhase.flushy]) h.tasksLe
-          ⟨fun hh => by simp [WkPhase.holds] at hh, by simp⟩ ?_ (fun e => by simp at e)
-        intro y hy
-        simp only [hlk, Option.some.injEq]
-        constructor
-        · intro e; exact absurd e.symm hy
-        · intro e; cases e
+        exact upd_worker s _ j .flushLocked _ h hp rfl rfl (Or.inl (by simp [WkPhase.flushy])) h.tasksLe
+          ⟨fun hh => by simp [WkPhase.holds] at hh, by simp⟩ (releaseOthers hlk) (fun e => by simp at e)
       | flushing =>
         simp only
-        have hse := h.sealedEq
-        have hpos : 0 < s.workers.countP WkPhase.flushy := by
-          rw [List.countP_pos_iff]
-          exact ⟨.flushing, List.mem_of_getElem? hp, rfl⟩
-        refine upd_worker s _ j .flushing _ h hp rfl rfl (by simp [WkPhase.flushy]; omega) h.tasksLe
+        apply inv_sendCompacts
+        refine upd_worker s _ j .flushing _ h hp rfl rfl (Or.inr rfl) h.tasksLe
           ⟨fun hh => by simp [WkPhase.holds] at hh, by simp⟩ (fun y _ => Iff.rfl) ?_
         intro e; exact absurd e (notHeld .flushing rfl rfl)
+      | compacting =>
+        simp only
+        refine upd_worker s _ j .compacting _ h hp rfl rfl (Or.inl (by simp [WkPhase.flushy])) h.tasksLe
+          ⟨fun hh => by simp [WkPhase.holds] at hh, by simp⟩ (fun y _ => Iff.rfl) ?_
+        intro e; exact absurd e (notHeld .compacting rfl rfl)
 
 theorem run_inv (cfg : Cfg) (hc : cfg.Live) (s : State) (sched : List Tid) (h : Inv s) :
     Inv (run cfg s sched) := by
